@@ -18,6 +18,25 @@ func GetPoolCoins(pool StakingPool, coins sdk.Coins) sdk.Coins {
 	}
 	return poolCoins
 }
+
+// GetRedeemPoolCoins returns the share tokens to burn for redeeming `coins` of stake: pro rata to the
+// pool's books (shares / stake per denom), rounded up, so that no redeemer takes more than his
+// fraction of the remaining stake - also after one or several slashes.
+func GetRedeemPoolCoins(pool StakingPool, coins sdk.Coins) (sdk.Coins, error) {
+	prefix := GetPoolPrefix(pool.Id)
+	poolCoins := sdk.Coins{}
+	for _, coin := range coins {
+		stake := sdk.Coins(pool.TotalStakingTokens).AmountOf(coin.Denom)
+		if coin.Amount.IsNegative() || !stake.IsPositive() {
+			return nil, ErrInsufficientTotalStakingTokens
+		}
+		shares := sdk.Coins(pool.TotalShareTokens).AmountOf(prefix + coin.Denom)
+		burn := coin.Amount.Mul(shares).Add(stake.SubRaw(1)).Quo(stake)
+		poolCoins = poolCoins.Add(sdk.NewCoin(prefix+coin.Denom, burn))
+	}
+	return poolCoins, nil
+}
+
 func GetShareDenom(poolID uint64, denom string) string {
 	prefix := GetPoolPrefix(poolID)
 	return prefix + denom
